@@ -132,7 +132,8 @@ Definition mirror_check (c : mirror_case) : bool :=
     is_prefix local_final (m_remote_out s) &&
     (if converged
      then beq_bytes (m_local s) local_final && beq_bytes local_final (m_remote_out s)
-          && is_stopped (m_mode (mrun_from s (settle k)))
+          && (is_stopped (m_mode (mrun_from s (settle k)))
+              || negb (is_complete (w_state (m_remote s))))   (* a cancelled unit is watched for ever *)
      else true)
   end.
 
